@@ -205,7 +205,8 @@ def mutation_files():
     p = subprocess.run(["patch", "-p1", "-s", "--no-backup-if-mismatch", "-d", root, "-i", os.path.abspath(diff)], stdout=subprocess.PIPE, stderr=subprocess.STDOUT, text=True)
     if p.returncode != 0:
         sys.stderr.write(p.stdout)
-        raise SystemExit("mutation does not apply: " + diff)
+        sys.stderr.write("mutation does not apply: " + diff + "\n")
+        raise SystemExit(2)  # an infrastructure error, never to be mistaken for a violation (exit 1)
     for f in files:
         dst = os.path.join(root, f) + ".txt"
         os.rename(os.path.join(root, f), dst)
